@@ -207,7 +207,7 @@ func init() {
 	fns := []string{"graph.ChromaticIndex", "graph.ChromaticNumber", "graph.dfsDsatur", "graph.GreedyColor", "graph.IsKColorable", "graph.Degeneracy"}
 	register(&propDef{
 		id:          "C09",
-		explanation: "Decides one narrow structural clause of 'come with valid witnesses': LIVE (a witness slice that ChromaticIndex, dfsDsatur/ChromaticNumber, GreedyColor, IsKColorable or Degeneracy allocates and returns is not allocated with a provably zero length, and at least one of the stores that populate it is statically reachable under E-PROVE's dominating-edge facts), plus READONLY (none of the C09 functions writes its graph argument) and EMIT (no write can reach the backing array of a clique AllMaximalCliques has already sent: writes go through the current iteration's own allocation only) and EDGEBYTE (no function of package graph - in particular no dense fast path of a colouring or clique function - uses the numeric value of an adjacency byte: any non-zero byte is an edge, so a test `== 1` gives different answers for the same graph held differently) and COUNTERWIDTH (no tally kept in an 8/16-bit slice element or field - DSATUR's per-colour neighbour counts, say - is incremented without a proof that it stays in range: a uint8 count forgets the 256th neighbour). Optimality, exactness and properness of the witnesses are value-level and not decided.",
+		explanation: "Decides one narrow structural clause of 'come with valid witnesses': LIVE (a witness slice that ChromaticIndex, dfsDsatur/ChromaticNumber, GreedyColor, IsKColorable or Degeneracy allocates and returns is not allocated with a provably zero length, and at least one of the stores that populate it is statically reachable under E-PROVE's dominating-edge facts), plus READONLY (none of the C09 functions writes its graph argument) and EMIT (no write can reach the backing array of a clique AllMaximalCliques has already sent: writes go through the current iteration's own allocation only) and EDGEBYTE (no function of package graph - in particular no dense fast path of a colouring or clique function - uses the numeric value of an adjacency byte: any non-zero byte is an edge, so a test `== 1` gives different answers for the same graph held differently) and COUNTERWIDTH (no tally kept in an 8/16-bit slice element or field - DSATUR's per-colour neighbour counts, say - is incremented without a proof that it stays in range: a uint8 count forgets the 256th neighbour) and NARROW (every conversion of an integer to a narrower type in the clique / colouring files is of a value proved to fit: ChromaticIndex's byte(colour+1) turns colour 256 into 0, the 'no edge' marker - a known finding, see known_findings.txt). Optimality, exactness and properness of the witnesses are value-level and not decided.",
 		notDecided:  []string{"that CliqueNumber/IndependenceNumber/ChromaticNumber/ChromaticIndex/Degeneracy return the true optimum", "that the returned colouring is proper and uses exactly that many colours; that each maximal clique is reported once", "ChromaticPolynomial values; GreedyColor first-fit; invariance under relabelling and representation"},
 		assumptions: []string{"a witness whose every populating store is dead, or whose length is provably 0, is wrong for every non-empty input"},
 		run: func(c *Ctx, tier string) []*RuleResult {
@@ -229,7 +229,11 @@ func init() {
 			// dense graph's adjacency bytes count as edges whenever they are non-zero
 			eb := ruleEdgeByte(c, "graph")
 			cw := ruleCounterWidth(c, "graph")
-			return []*RuleResult{lv, ro, em, eb, cw}
+			// a colour converted to a narrower type must be proved to fit: colour 256 as a byte is 0, "no edge"
+			nw := ruleNarrowWith(c, filesOf(c, "graph.ChromaticIndex", "graph.ChromaticNumber", "graph.GreedyColor", "graph.IsKColorable", "graph.CliqueNumber", "graph.Degeneracy"), nonNegativeOrder)
+			nw.Doc = "every conversion of an integer to a narrower integer type in the clique / colouring files is of a value proved to fit"
+			nw.MinInst = 1
+			return []*RuleResult{lv, ro, em, eb, cw, nw}
 		},
 		controls: func(ctl *Ctx) []*RuleResult {
 			lv := &RuleResult{Rule: "LIVE"}
@@ -241,7 +245,7 @@ func init() {
 			em2 := &RuleResult{Rule: "EMIT"}
 			ruleEmit(ctl, em2, "livectl.BadEmitReuse")
 			cwc := ruleCounterWidth(ctl, "livectl")
-			return []*RuleResult{lv, em, em2, cwc}
+			return []*RuleResult{lv, em, em2, cwc, ruleNarrow(ctl, inFiles("balctl.go"))}
 		},
 	})
 }
